@@ -8,6 +8,7 @@ pub mod commit_faults;
 pub mod delivery;
 pub mod meld_audit;
 pub mod orch;
+pub mod resolve_api;
 pub mod delta_roundtrip;
 pub mod deltaid;
 pub mod history;
@@ -39,6 +40,7 @@ pub fn run(name: &str, thorough: bool, seed: u64) -> Option<Report> {
         "delivery" => Some(delivery::run(thorough, seed)),
         "commit_faults" => Some(commit_faults::run(thorough, seed)),
         "meld_audit" => Some(meld_audit::run(thorough, seed)),
+        "resolve_api" => Some(resolve_api::run(thorough, seed)),
         _ => None,
     }
 }
@@ -61,6 +63,7 @@ pub fn replay(name: &str, case: &Value) -> Value {
         "delivery" => delivery::replay(case),
         "commit_faults" => commit_faults::replay(case),
         "meld_audit" => meld_audit::replay(case),
+        "resolve_api" => resolve_api::replay(case),
         _ => json!({"reproduced": false, "error": "unknown oracle"}),
     }
 }
